@@ -81,8 +81,9 @@ class EchoStream(AsyncStreamRequestHandler):
 
 
 class EchoDgram(AsyncDatagramRequestHandler):
-    def __init__(self, init_delay: float) -> None:
+    def __init__(self, init_delay: float, work: float = 0.0) -> None:
         self.init_delay = init_delay
+        self.work = work  # handling time per datagram: more datagrams of the same client queue up behind a busy handler
 
     async def service_init(self, exit_stack, server):
         if self.init_delay:
@@ -90,6 +91,8 @@ class EchoDgram(AsyncDatagramRequestHandler):
 
     async def handle(self, client):
         req = yield
+        if self.work:
+            await asyncio.sleep(self.work)
         await client.send_packet(req)
 
 
@@ -148,6 +151,10 @@ def template_histories() -> list[dict]:
                             ops.append({"task": 1, "op": y, "delay": t + d})
                             ops.append({"task": 0, "op": "serve", "delay": 0})  # and serve again right after the stop returned
                             out.append({"udp": udp, "ops": ops, "listen_delay": 0, "init_delay": 0, "disc_delay": disc, "ntasks": 2, "template": f"teardown:{stop}:{y}@{d}:held{nheld}:disc{disc}"})
+        for stop in ("shutdown", "close"):
+            for d in (0.05, 0.1, 0.3):
+                ops = [{"task": 0, "op": "serve", "delay": 0}, {"task": 0, "op": "flood", "delay": 0.5}, {"task": 0, "op": stop, "delay": d}, {"task": 0, "op": "serve", "delay": 0}]
+                out.append({"udp": udp, "ops": ops, "listen_delay": 0, "init_delay": 0, "disc_delay": 0, "work": 0.25, "ntasks": 1, "template": f"flood-then-{stop}@{d}"})
         for y in ("shutdown", "close", "serve", "activate"):
             for d in offs:
                 for ld in (0, 0.25):
@@ -178,7 +185,7 @@ def run_async_history(h: dict) -> dict:
     async def main(loop):
         backend = SlowBackend(h["listen_delay"])
         if h["udp"]:
-            server: Any = AsyncUDPNetworkServer(netutil.rand_loopback(), 0, DatagramProtocol(StringLineSerializer()), EchoDgram(h["init_delay"]), backend, logger=_quiet())
+            server: Any = AsyncUDPNetworkServer(netutil.rand_loopback(), 0, DatagramProtocol(StringLineSerializer()), EchoDgram(h["init_delay"], h.get("work", 0.0)), backend, logger=_quiet())
         else:
             server = AsyncTCPNetworkServer(netutil.rand_loopback(), 0, StreamProtocol(StringLineSerializer()), EchoStream(h["init_delay"], h["disc_delay"]), backend, logger=_quiet())
         serve_tasks: list = []
@@ -264,6 +271,20 @@ def run_async_history(h: dict) -> dict:
                         ev("return", call=cid, result=await echo_once())
                     elif op == "hold":
                         ev("return", call=cid, result=await echo_once(keep=True))
+                    elif op == "flood":
+                        # several datagrams of one client back-to-back, nobody waits for the answers: with a busy handler they
+                        # sit in that client's queue when the next lifecycle call arrives
+                        try:
+                            addrs = server.get_addresses()
+                            fs = socket.socket(socket.AF_INET, socket.SOCK_DGRAM if h["udp"] else socket.SOCK_STREAM)
+                            fs.setblocking(False)
+                            await asyncio.get_running_loop().sock_connect(fs, (addrs[0].host, addrs[0].port))
+                            for j in range(4):
+                                await asyncio.get_running_loop().sock_sendall(fs, b"flood%d\n" % j if not h["udp"] else b"flood%d" % j)
+                            held.append(fs)
+                            ev("return", call=cid, result="sent")
+                        except Exception as exc:  # noqa: BLE001
+                            ev("return", call=cid, result=f"failed:{type(exc).__name__}")
                     else:
                         ev("return", call=cid, result=f"serving={server.is_serving()} listening={server.is_listening()}")
                 except BaseException as exc:  # noqa: BLE001
